@@ -256,19 +256,47 @@ class GuardEval:
             if isinstance(v, (set, frozenset, list)):
                 v = tuple(v)
             return v if isinstance(v, (int, str, tuple, range)) else _UNKNOWN
-        vals = []
-        for d in ds:
+        def val_of(d) -> t.Any:
             if d.kind == "param" and self.env is not None and ident in self.env:
-                v = self.env[ident](s)
-            elif d.kind not in ("assign", "walrus") or d.index is not None or d.value is None or d.node is None:
+                return self.env[ident](s)
+            if d.kind not in ("assign", "walrus") or d.index is not None or d.value is None or d.node is None:
                 return _UNKNOWN
-            else:
-                v = self.value(d.value, d.node, s, depth + 1)
-            if v is _UNKNOWN:
+            return self.value(d.value, d.node, s, depth + 1)
+
+        def common(vs: list) -> t.Any:
+            if any(v is _UNKNOWN for v in vs):
                 return _UNKNOWN
-            vals.append(v)
-        first = vals[0]
-        return first if all(type(v) is type(first) and v == first for v in vals) else _UNKNOWN
+            first = vs[0]
+            return first if all(type(v) is type(first) and v == first for v in vs) else _UNKNOWN
+
+        vals = [val_of(d) for d in ds]
+        got = common(vals)
+        if got is not _UNKNOWN or len(ds) == 1 or any(v is _UNKNOWN for v in vals):
+            return got
+        # several definitions (one per branch, `case`, ...), each decided by the valuation, with different values: only
+        # those count that the valuation lets reach this use.  The reachability asks for test values in turn; a nested question about
+        # the same use is left undecided, which only makes more definitions count.
+        key = (at.id, ident, s)
+        busy = self.__dict__.setdefault("_busy", set())
+        if key in busy or len(busy) >= 2:
+            return _UNKNOWN
+        busy.add(key)
+        try:
+            r0 = self.reach(s)
+            live = []
+            for d, v in zip(ds, vals):
+                if d.node is None:
+                    live.append(v)
+                    continue
+                if d.node.id not in r0:
+                    continue
+                others = [o.node for o in ds if o is not d and o.node is not None and o.node is not d.node]
+                nxt = [x for x, lab in d.node.succs]
+                if d.node is at or any(x is at for x in nxt) or at.id in self.reach(s, nxt, avoid_nodes=others):
+                    live.append(v)
+        finally:
+            busy.discard(key)
+        return common(live) if live else _UNKNOWN
 
     def _is_param(self, ident: str) -> bool:
         if ident in self.F.fi.params:
@@ -432,6 +460,12 @@ class GuardEval:
     def truth(self, e: ast.AST, at: Node, s: Sigma) -> bool | None:
         v = self.value(e, at, s)
         return None if v is _UNKNOWN else bool(v)
+
+    def _reach0(self, s: Sigma) -> set[int]:
+        memo = self.__dict__.setdefault("_r0", {})
+        if s not in memo:
+            memo[s] = self.reach(s)
+        return memo[s]
 
     def reach(self, s: Sigma, start: Node | t.Iterable[Node] | None = None, avoid_nodes: t.Iterable[Node] = ()) -> set[int]:
         """ids of the nodes reachable under valuation s; tests that s decides contribute only the decided edge."""
